@@ -848,6 +848,15 @@ func doCheck(id, tier string, seed uint64) int {
 			fmt.Printf("INCONCLUSIVE property=%s reason=%s\n", id, strings.ReplaceAll(head(r, 800), "\n", " | "))
 		}
 	}
+	if len(samples) == 0 {
+		// A run that found violations early may not have reached its sampling
+		// points: the violating cases are then the cases to show.
+		for i, v := range real {
+			if i < 3 {
+				samples = append(samples, map[string]any{"block": v.Block, "index": v.Index, "case": v.Case, "violating": true})
+			}
+		}
+	}
 	wall := time.Since(start)
 	extra := map[string]any{
 		"counters": counters, "flavours": m.Flavours, "flavour_wall_s": flavourWall, "blocks": m.Blocks,
